@@ -795,6 +795,74 @@ func suiteRecvData(h *H) {
 		}
 		return
 	}
+	// block references far into a large (sparse) basis: offsets at and beyond 2^31 and 2^32, where a
+	// 32-bit product of index and block length would wrap (implementation-only: too large for the model op)
+	for i := 0; i < h.n(2, 12); i++ {
+		seed := int32(h.rng.Uint32())
+		bl := int64(h.pick(1<<20, 1<<19, 700*1024))
+		size := int64(1)<<32 + 3*bl + int64(h.pick(0, 123, int(bl)-1))
+		count := (size + bl - 1) / bl
+		rem := size % bl
+		idxs := []int64{(int64(1)<<31 + bl - 1) / bl, (int64(1)<<32)/bl + 1, count - 1, (int64(1)<<31)/bl - 1}
+		h.rng.Shuffle(len(idxs), func(a, b int) { idxs[a], idxs[b] = idxs[b], idxs[a] })
+		env.n++
+		sub := fmt.Sprintf("big%d", env.n)
+		os.Mkdir(filepath.Join(env.dir, sub), 0o755)
+		name := sub + "/file"
+		fh, err := os.Create(filepath.Join(env.dir, name))
+		if err != nil {
+			panic(err)
+		}
+		fh.Truncate(size)
+		var want []byte
+		var toks []tok
+		for _, ix := range idxs {
+			l := bl
+			if ix == count-1 && rem != 0 {
+				l = rem
+			}
+			mark := h.bytes(int(l))
+			fh.WriteAt(mark, ix*bl)
+			want = append(want, mark...)
+			toks = append(toks, tok{ref: int(ix)})
+			if h.rng.Intn(2) == 0 {
+				lit := h.bytes(1 + h.rng.Intn(50))
+				want = append(want, lit...)
+				toks = append(toks, tok{lit: lit})
+			}
+		}
+		fh.Close()
+		hd := sumHead{count: int32(count), bl: int32(bl), cs: 16, rem: int32(rem)}
+		stream := append(append(encHead(hd), encTokens(toks)...), refFileSum(seed, want)...)
+		opts := receiver.TransferOpts{}
+		opts.InfoGTE, opts.DebugGTE = falseInfo, falseDebug
+		opts.Server = true
+		rt := &receiver.Transfer{Logger: log.New(io.Discard), Opts: &opts, Dest: env.dir, DestRoot: env.root,
+			Env: &rsyncos.Env{Stdout: io.Discard, Stderr: io.Discard}, Progress: progress.NewPrinter(io.Discard, time.Now),
+			Conn: &rsyncwire.Conn{Reader: bytes.NewReader(stream), Writer: io.Discard}, Seed: seed}
+		f := &receiver.File{Name: name, Mode: 0o100644, ModTime: time.Unix(1600000000, 0)}
+		outcome := "ok"
+		func() {
+			defer func() {
+				if r := recover(); r != nil {
+					outcome = fmt.Sprintf("panic:%v", r)
+				}
+			}()
+			if err := receiver.VerifRecvFile1(rt, f); err != nil {
+				outcome = "err:" + err.Error()
+			}
+		}()
+		got, _ := os.ReadFile(filepath.Join(env.dir, name))
+		v := ""
+		if outcome != "ok" {
+			v = "FAIL a valid token stream with block references beyond 2 GiB of the basis was not accepted: " + outcome
+		} else if !bytes.Equal(got, want) {
+			v = "FAIL block references beyond 2 GiB of the basis were reconstructed to other bytes than the stream denotes"
+		}
+		os.RemoveAll(filepath.Join(env.dir, sub))
+		h.emit(fmt.Sprintf("!recvdata-large seed=%d case=%d bl=%d size=%d refs=%v", h.seed, i, bl, size, idxs), outcome, v, true)
+		h.stat("recvdata.large")
+	}
 	n := h.n(120, 2500)
 	for i := 0; i < n; i++ {
 		seed := int32(h.rng.Uint32())
